@@ -436,7 +436,7 @@ def replay_C16(ctx, path):
 def run_C08(ctx, tier):
     tool = _tool("conch")
     summ = os.path.join(ctx.work, "wedge_%s.json" % tier)
-    rc, out, err = sh([tool, "wedge", "-tier", tier, "-seed", str(ctx.seed), "-summary", summ], timeout=3000, cwd=ctx.work)
+    rc, out, err = sh([tool, "wedge", "-tier", tier, "-seed", str(ctx.seed), "-summary", summ], timeout=900, cwd=ctx.work)
     if rc != 0 or not os.path.exists(summ):
         raise RuntimeError("conch wedge failed rc=%s %s %s" % (rc, out[-1500:], err[-1500:]))
     s = json.load(open(summ))
